@@ -63,3 +63,576 @@ Proof.
   split; [reflexivity|]. split; [intros; lia|]. split; [|intros; lia].
   intros fl. destruct (Z.land fl 4 =? 0) eqn:E; cbn; split; intros; try lia; try discriminate.
 Qed.
+
+(* =====================================================================================================
+   Whole runs. The loop is first turned (once, through guards_meaning only) into the relation Run, one
+   constructor per way an iteration can go; every theorem below is an induction over Run, i.e. over the
+   provider's legs and the server script together, with no bound on either.
+   ===================================================================================================== *)
+
+Definition has_flag (r : reply) : bool :=
+  match r with RBindAck _ fl _ | RAlterResp _ fl _ => negb (Z.land fl 4 =? 0) | _ => false end.
+Definition reply_token (r : reply) : option bytes :=
+  match r with RBindAck _ _ t | RAlterResp _ _ t => t | _ => None end.
+Definition is_alter (p : sent) : Prop := match p with SAlter _ _ _ => True | SBind _ _ _ => False end.
+Definition alter_token (p : sent) : bytes := match p with SAlter _ t _ => t | SBind _ _ _ => [] end.
+Definition sent_ctxs (p : sent) : list Z := match p with SAlter _ _ c | SBind _ _ c => c end.
+Definition sent_flags (p : sent) : Z := match p with SAlter f _ _ | SBind f _ _ => f end.
+Definition expect_at (k : nat) : expect := match k with O => EBindAck | S _ => EAlterResp end.
+(* what step() is given: the previous token (None before the first ack is the caller's business), then each ack's *)
+Definition fed (tk : option bytes) (consumed : list reply) : list (option bytes) :=
+  map (fun t => Some (or_empty t)) (tk :: map reply_token consumed).
+
+Definition step_sent (fctx : list Z) (l : leg) (tk : option bytes) (s : st) : st :=
+  snoc_trace (snoc_step s (Some (or_empty tk))) (SAlter (if sign s then 4 else 0) (leg_token l) fctx).
+Definition acked (fl : Z) (s : st) : st := if Z.land fl 4 =? 0 then set_sign s false else s.
+
+Lemma acked_trace fl s : trace (acked fl s) = trace s.
+Proof. unfold acked. destruct (Z.land fl 4 =? 0); reflexivity. Qed.
+Lemma acked_steps fl s : steps (acked fl s) = steps s.
+Proof. unfold acked. destruct (Z.land fl 4 =? 0); reflexivity. Qed.
+Lemma acked_server fl s : server (acked fl s) = server s.
+Proof. unfold acked. destruct (Z.land fl 4 =? 0); reflexivity. Qed.
+Lemma acked_sign fl s : sign (acked fl s) = sign s && negb (Z.land fl 4 =? 0).
+Proof. unfold acked. destruct (Z.land fl 4 =? 0); cbn [sign set_sign negb]; [rewrite andb_false_r|rewrite andb_true_r]; reflexivity. Qed.
+
+Inductive Run (fctx : list Z) : list leg -> bool -> option bytes -> st -> res unit -> st -> Prop :=
+| RunComplete legs tk s : Run fctx legs true tk s (Ok tt) s
+| RunNoLeg tk s : Run fctx [] false tk s (Raise KeyError) s
+| RunBreak l ls tk s : leg_token l = [] ->
+    Run fctx (l :: ls) false tk s (Ok tt) (snoc_step s (Some (or_empty tk)))
+| RunEOF l ls tk s : leg_token l <> [] -> server s = [] ->
+    Run fctx (l :: ls) false tk s (Raise EOFError) (step_sent fctx l tk s)
+| RunBad l ls tk s rp rest : leg_token l <> [] -> server s = rp :: rest -> expected rp EAlterResp = false ->
+    Run fctx (l :: ls) false tk s (Raise ValueError) (pop_server (step_sent fctx l tk s))
+| RunIdx l ls tk s rs fl tk' rest e : leg_token l <> [] -> server s = RAlterResp rs fl tk' :: rest ->
+    accepted_contexts fctx rs 0 = Raise e ->
+    Run fctx (l :: ls) false tk s (Raise e) (pop_server (step_sent fctx l tk s))
+| RunNext l ls tk s rs fl tk' rest acc r s' : leg_token l <> [] -> server s = RAlterResp rs fl tk' :: rest ->
+    accepted_contexts fctx rs 0 = Ok acc ->
+    Run fctx ls (leg_complete l) tk' (acked fl (pop_server (step_sent fctx l tk s))) r s' ->
+    Run fctx (l :: ls) false tk s r s'.
+
+Lemma clears_sign_eq fl : k_ack_clears_sign fl c_PFC_SUPPORT_HEADER_SIGN = (Z.land fl 4 =? 0).
+Proof.
+  destruct guards_meaning as (_ & _ & _ & _ & Hc & _). specialize (Hc fl).
+  destruct (k_ack_clears_sign fl c_PFC_SUPPORT_HEADER_SIGN); lia.
+Qed.
+
+Lemma alter_loop_Run fctx : forall legs complete tk s r s',
+  alter_loop legs complete tk fctx s = (r, s') -> Run fctx legs complete tk s r s'.
+Proof.
+  destruct guards_meaning as (Hg & Hb & Hf & _).
+  induction legs as [|l ls IH]; intros complete tk s r s' H; cbn [alter_loop] in H; rewrite Hg in H;
+    destruct complete; cbn [negb] in H.
+  - inversion H; subst; constructor.
+  - inversion H; subst; constructor.
+  - inversion H; subst; constructor.
+  - destruct (k_bind_break (leg_token l)) eqn:Eb.
+    + apply Hb in Eb. inversion H; subst. constructor. assumption.
+    + assert (Hne : leg_token l <> []). { intros E. apply Hb in E. congruence. }
+      rewrite Hf in H. cbn [sign snoc_step] in H.
+      change (snoc_trace (snoc_step s (Some (or_empty tk))) (SAlter (if sign s then 4 else 0) (leg_token l) fctx))
+        with (step_sent fctx l tk s) in H.
+      unfold send_pdu in H.
+      fold (step_sent fctx l tk s) in H.
+      revert H.
+      change (snoc_trace (snoc_step s (Some (or_empty tk))) (SAlter (if sign s then 4 else 0) (leg_token l) fctx))
+        with (step_sent fctx l tk s).
+      change (server (step_sent fctx l tk s)) with (server s).
+      destruct (server s) as [|rp rest] eqn:Es; intros H.
+      * inversion H; subst. constructor; assumption.
+      * destruct rp as [rs fl tk'|rs fl tk'| | |];
+          try (inversion H; subst; eapply RunBad; [assumption|exact Es|reflexivity]).
+        unfold process_bind_ack in H. destruct (accepted_contexts fctx rs 0) as [acc|e] eqn:Ea.
+        -- rewrite clears_sign_eq in H.
+           change (if Z.land fl 4 =? 0 then set_sign (pop_server (step_sent fctx l tk s)) false else pop_server (step_sent fctx l tk s))
+             with (acked fl (pop_server (step_sent fctx l tk s))) in H.
+           eapply RunNext; [assumption|exact Es|exact Ea|]. apply IH. exact H.
+        -- inversion H; subst. eapply RunIdx; [assumption|exact Es|exact Ea].
+Qed.
+
+Lemma step_sent_trace fctx l tk s :
+  trace (step_sent fctx l tk s) = trace s ++ [SAlter (if sign s then 4 else 0) (leg_token l) fctx].
+Proof. reflexivity. Qed.
+Lemma step_sent_steps fctx l tk s : steps (step_sent fctx l tk s) = steps s ++ [Some (or_empty tk)].
+Proof. reflexivity. Qed.
+Lemma step_sent_server fctx l tk s : server (step_sent fctx l tk s) = server s.
+Proof. reflexivity. Qed.
+Lemma step_sent_sign fctx l tk s : sign (step_sent fctx l tk s) = sign s.
+Proof. reflexivity. Qed.
+Lemma pop_trace s : trace (pop_server s) = trace s. Proof. reflexivity. Qed.
+Lemma pop_steps s : steps (pop_server s) = steps s. Proof. reflexivity. Qed.
+Lemma pop_sign s : sign (pop_server s) = sign s. Proof. reflexivity. Qed.
+Lemma pop_srv s : server (pop_server s) = tl (server s). Proof. reflexivity. Qed.
+Lemma snoc_step_trace s a : trace (snoc_step s a) = trace s. Proof. reflexivity. Qed.
+Lemma snoc_step_steps s a : steps (snoc_step s a) = steps s ++ [a]. Proof. reflexivity. Qed.
+Lemma snoc_step_server s a : server (snoc_step s a) = server s. Proof. reflexivity. Qed.
+Lemma snoc_step_sign s a : sign (snoc_step s a) = sign s. Proof. reflexivity. Qed.
+#[local] Hint Rewrite acked_trace acked_steps acked_server acked_sign pop_trace pop_steps pop_sign pop_srv
+  step_sent_trace step_sent_steps step_sent_server step_sent_sign
+  snoc_step_trace snoc_step_steps snoc_step_server snoc_step_sign : hs.
+
+Ltac out_fin :=
+  first [ solve [eauto] | lia | solve [repeat constructor; auto]
+        | (let v := fresh in let Hv := fresh in intros [v Hv]; discriminate Hv)
+        | (let j := fresh "j" in let p := fresh "p" in let Hn := fresh "Hn" in
+           intros [|j] p Hn; cbn [nth_error] in Hn; [|destruct j; discriminate Hn];
+           inversion Hn; subst; cbn [firstn forallb sent_flags]; rewrite ?andb_true_r; reflexivity)
+        | (let j := fresh "j" in let p := fresh "p" in let Hn := fresh "Hn" in
+           intros [|j] p Hn; discriminate Hn)
+        | idtac ].
+
+(* ---- what goes out: the PDUs of the loop, their tokens, contexts and flags; which acks were processed ---- *)
+Lemma Run_out fctx legs c tk s r s' : Run fctx legs c tk s r s' ->
+  exists alters n processed extra,
+    trace s' = trace s ++ alters /\ (n <= length legs)%nat /\
+    Forall is_alter alters /\
+    map alter_token alters = map leg_token (firstn n legs) /\
+    Forall (fun t => t <> []) (map alter_token alters) /\
+    Forall (fun p => sent_ctxs p = fctx) alters /\
+    server s = processed ++ extra ++ server s' /\
+    (extra = [] \/ exists rp e, extra = [rp] /\ r = Raise e) /\
+    Forall (fun a => expected a EAlterResp = true) processed /\
+    (length processed <= length alters <= S (length processed))%nat /\
+    ((exists v, r = Ok v) -> length processed = length alters) /\
+    sign s' = sign s && forallb has_flag processed /\
+    (forall j p, nth_error alters j = Some p ->
+       sent_flags p = if sign s && forallb has_flag (firstn j processed) then 4 else 0).
+Proof.
+  induction 1 as [legs tk s|tk s|l ls tk s Ht|l ls tk s Ht Es|l ls tk s rp rest Ht Es Ex|l ls tk s rs fl tk' rest e Ht Es Ea
+                 |l ls tk s rs fl tk' rest acc r s' Ht Es Ea HR IH].
+  1-3: exists [], 0%nat, [], []; autorewrite with hs; cbn [firstn map length forallb app];
+       rewrite ?app_nil_r, ?andb_true_r; repeat split; out_fin.
+  - exists [SAlter (if sign s then 4 else 0) (leg_token l) fctx], 1%nat, [], [].
+    autorewrite with hs. rewrite Es. cbn [firstn map length forallb app alter_token].
+    rewrite ?andb_true_r. repeat split; out_fin.
+  - exists [SAlter (if sign s then 4 else 0) (leg_token l) fctx], 1%nat, [], [rp].
+    autorewrite with hs. rewrite Es. cbn [tl firstn map length forallb app alter_token].
+    rewrite ?andb_true_r. repeat split; out_fin.
+  - exists [SAlter (if sign s then 4 else 0) (leg_token l) fctx], 1%nat, [], [RAlterResp rs fl tk'].
+    autorewrite with hs. rewrite Es. cbn [tl firstn map length forallb app alter_token].
+    rewrite ?andb_true_r. repeat split; out_fin.
+  - destruct IH as (alters & n & processed & extra & Htr & Hn & Hal & Htok & Hne & Hcx & Hsrv & Hex & Hpr & Hlen & Hok & Hsg & Hfl).
+    autorewrite with hs in *. rewrite Es in Hsrv. cbn [tl] in Hsrv.
+    exists (SAlter (if sign s then 4 else 0) (leg_token l) fctx :: alters), (S n), (RAlterResp rs fl tk' :: processed), extra.
+    cbn [firstn map length forallb app alter_token has_flag].
+    split. { rewrite Htr, <- app_assoc. reflexivity. }
+    split; [lia|]. split; [constructor; [exact I|assumption]|].
+    split; [f_equal; assumption|]. split; [constructor; assumption|].
+    split; [constructor; [reflexivity|assumption]|].
+    split; [rewrite Es, Hsrv; reflexivity|]. split; [assumption|].
+    split; [constructor; [reflexivity|assumption]|]. split; [lia|].
+    split; [intros Hv; f_equal; auto|].
+    split; [rewrite Hsg, andb_assoc; reflexivity|].
+    intros [|j] p Hj; cbn [nth_error firstn forallb] in *.
+    + inversion Hj; subst. cbn [sent_flags]. rewrite andb_true_r. reflexivity.
+    + rewrite (Hfl _ _ Hj). cbn [has_flag]. rewrite andb_assoc. reflexivity.
+Qed.
+
+Ltac nth_nil := match goal with H : nth_error [] ?k = Some _ |- _ => destruct k; discriminate H end.
+Ltac nth_one := match goal with H : nth_error [_] ?k = Some _ |- _ =>
+  destruct k as [|k]; [cbn [nth_error] in H; inversion H; subst; clear H | destruct k; discriminate H] end.
+Ltac in_fin :=
+  first [ lia | solve [eauto] | nth_nil
+        | solve [firstorder congruence]
+        | solve [let i := fresh "i" in let lg := fresh "lg" in let Hl := fresh "Hl" in let Hl' := fresh "Hl" in
+                 intros [|i] lg Hl Hl'; [cbn [nth_error] in Hl; inversion Hl; subst; contradiction | lia]]
+        | solve [nth_one; first [contradiction | discriminate | reflexivity | lia | auto]]
+        | idtac ].
+
+(* ---- what comes in: replies consumed, what step() was fed, when the loop stops, how errors end it ---- *)
+Lemma Run_in fctx legs c tk s r s' : Run fctx legs c tk s r s' ->
+  exists consumed m d,
+    server s = consumed ++ server s' /\
+    steps s' = steps s ++ firstn m (fed tk consumed) /\
+    length (trace s') = (length (trace s) + d)%nat /\
+    (m <= length legs)%nat /\ (m <= S (length consumed))%nat /\
+    (m = d \/ m = S d) /\
+    (m = S d <-> (1 <= m)%nat /\ exists lg, nth_error legs (m - 1) = Some lg /\ leg_token lg = []) /\
+    (length consumed = d \/ (S (length consumed) = d /\ r = Raise EOFError /\ server s' = [])) /\
+    (forall k rp, nth_error consumed k = Some rp -> expected rp EAlterResp = false ->
+        r = Raise ValueError /\ d = S k /\ length consumed = S k) /\
+    (forall i lg, (S i < m)%nat -> nth_error legs i = Some lg -> leg_complete lg = false) /\
+    ((1 <= m)%nat -> c = false) /\
+    (forall i lg, nth_error legs i = Some lg -> leg_token lg = [] -> (d <= i)%nat).
+Proof.
+  induction 1 as [legs tk s|tk s|l ls tk s Ht|l ls tk s Ht Es|l ls tk s rp rest Ht Es Ex|l ls tk s rs fl tk' rest e Ht Es Ea
+                 |l ls tk s rs fl tk' rest acc r s' Ht Es Ea HR IH].
+  - exists [], 0%nat, 0%nat. autorewrite with hs. cbn [firstn app length]. rewrite app_nil_r.
+    repeat split; in_fin.
+  - exists [], 0%nat, 0%nat. autorewrite with hs. cbn [firstn app length]. rewrite app_nil_r.
+    repeat split; in_fin.
+  - exists [], 1%nat, 0%nat. autorewrite with hs. cbn [firstn app length fed map Nat.sub nth_error]. rewrite ?app_length. cbn [length].
+    repeat split; in_fin.
+  - exists [], 1%nat, 1%nat. autorewrite with hs. rewrite Es. cbn [firstn app length fed map Nat.sub nth_error]. rewrite ?app_length. cbn [length].
+    repeat split; in_fin.
+  - exists [rp], 1%nat, 1%nat. autorewrite with hs. rewrite Es. cbn [tl firstn app length fed map Nat.sub nth_error]. rewrite ?app_length. cbn [length].
+    repeat split; in_fin.
+  - exists [RAlterResp rs fl tk'], 1%nat, 1%nat. autorewrite with hs. rewrite Es. cbn [tl firstn app length fed map Nat.sub nth_error]. rewrite ?app_length. cbn [length].
+    repeat split; in_fin.
+  - destruct IH as (consumed & m & d & Hsrv & Hst & Htr & Hml & Hmc & Hmd & Hiff & Hcd & Hbad & Hinc & Hc & Hemp).
+    autorewrite with hs in *. rewrite Es in Hsrv. cbn [tl] in Hsrv.
+    exists (RAlterResp rs fl tk' :: consumed), (S m), (S d).
+    split; [rewrite Es, Hsrv; reflexivity|].
+    split. { rewrite Hst, <- app_assoc. reflexivity. }
+    split. { rewrite Htr, app_length. cbn [length]. lia. }
+    cbn [length]. split; [lia|]. split; [lia|]. split; [lia|].
+    split.
+    { split.
+      - intros E. assert (E' : m = S d) by lia. apply Hiff in E' as (H1 & lg & Hl & Hl'). split; [lia|].
+        exists lg. split; [|assumption]. destruct m as [|m']; [lia|]. cbn [Nat.sub] in *. rewrite Nat.sub_0_r in *.
+        exact Hl.
+      - intros (_ & lg & Hl & Hl'). cbn [Nat.sub] in Hl. rewrite Nat.sub_0_r in Hl.
+        destruct m as [|m']; cbn [nth_error] in Hl.
+        + inversion Hl; subst. contradiction.
+        + f_equal. apply Hiff. split; [lia|]. exists lg. cbn [Nat.sub]. rewrite Nat.sub_0_r. auto. }
+    split. { destruct Hcd as [E|(E & E1 & E2)]; [left; lia|right; auto]. }
+    split. { intros [|k] rp Hk Hx; cbn [nth_error] in Hk.
+             - inversion Hk; subst. discriminate.
+             - destruct (Hbad _ _ Hk Hx) as (E1 & E2 & E3). auto. }
+    split. { intros [|i] lg Hi Hl; cbn [nth_error] in Hl.
+             - inversion Hl; subst. apply Hc. lia.
+             - apply (Hinc i); [lia|assumption]. }
+    split; [reflexivity|].
+    intros [|i] lg Hl Hl'; cbn [nth_error] in Hl.
+    + inversion Hl; subst. contradiction.
+    + specialize (Hemp _ _ Hl Hl'). lia.
+Qed.
+
+(* ---- bind(): the Bind exchange, then the loop ---- *)
+Definition bind_st (l : leg) (srv : list reply) (ctxs : list Z) : st :=
+  {| trace := [SBind 4 (Some (leg_token l)) ctxs]; steps := [None]; sign := true; server := srv |}.
+
+Inductive BindRun (l : leg) (ls : list leg) (srv : list reply) (ctxs : list Z) : res (list Z) -> st -> Prop :=
+| BREOF : srv = [] -> BindRun l ls srv ctxs (Raise EOFError) (bind_st l srv ctxs)
+| BRBad rp rest : srv = rp :: rest -> expected rp EBindAck = false ->
+    BindRun l ls srv ctxs (Raise ValueError) (pop_server (bind_st l srv ctxs))
+| BRIdx rs fl tk rest e : srv = RBindAck rs fl tk :: rest -> accepted_contexts ctxs rs 0 = Raise e ->
+    BindRun l ls srv ctxs (Raise e) (pop_server (bind_st l srv ctxs))
+| BRLoop rs fl tk rest acc ru s : srv = RBindAck rs fl tk :: rest -> accepted_contexts ctxs rs 0 = Ok acc ->
+    Run acc ls (leg_complete l) tk (acked fl (pop_server (bind_st l srv ctxs))) ru s ->
+    BindRun l ls srv ctxs (match ru with Ok _ => Ok rs | Raise e => Raise e end) s.
+
+Lemma bind_run_BindRun l ls srv ctxs r s :
+  bind_run true (l :: ls) srv ctxs = (r, s) -> BindRun l ls srv ctxs r s.
+Proof.
+  unfold bind_run. cbn [negb]. unfold send_pdu.
+  change (snoc_trace (set_sign (snoc_step (init_st srv) None) true)
+            (SBind (Z.lor c_PFC_NONE c_PFC_SUPPORT_HEADER_SIGN) (Some (leg_token l)) ctxs))
+    with (bind_st l srv ctxs).
+  change (server (bind_st l srv ctxs)) with srv.
+  destruct srv as [|rp rest] eqn:Es; intros H.
+  - inversion H; subst. constructor. reflexivity.
+  - destruct rp as [rs fl tk|rs fl tk| | |];
+      try (inversion H; subst; eapply BRBad; reflexivity).
+    unfold process_bind_ack in H. destruct (accepted_contexts ctxs rs 0) as [acc|e] eqn:Ea.
+    + rewrite clears_sign_eq in H.
+      change (if Z.land fl 4 =? 0 then set_sign (pop_server (bind_st l (RBindAck rs fl tk :: rest) ctxs)) false
+              else pop_server (bind_st l (RBindAck rs fl tk :: rest) ctxs))
+        with (acked fl (pop_server (bind_st l (RBindAck rs fl tk :: rest) ctxs))) in H.
+      destruct (alter_loop ls (leg_complete l) tk acc (acked fl (pop_server (bind_st l (RBindAck rs fl tk :: rest) ctxs))))
+        as [ru s5] eqn:El.
+      apply alter_loop_Run in El.
+      assert (E : r = match ru with Ok _ => Ok rs | Raise e => Raise e end /\ s = s5).
+      { destruct ru; inversion H; subst; auto. }
+      destruct E as [-> ->]. eapply BRLoop; [reflexivity|exact Ea|exact El].
+    + inversion H; subst. eapply BRIdx; [reflexivity|exact Ea].
+Qed.
+
+Lemma bind_st_loop_trace l srv ctxs fl : trace (acked fl (pop_server (bind_st l srv ctxs))) = [SBind 4 (Some (leg_token l)) ctxs].
+Proof. rewrite acked_trace. reflexivity. Qed.
+Lemma bind_st_loop_steps l srv ctxs fl : steps (acked fl (pop_server (bind_st l srv ctxs))) = [None].
+Proof. rewrite acked_steps. reflexivity. Qed.
+Lemma bind_st_loop_server l srv ctxs fl : server (acked fl (pop_server (bind_st l srv ctxs))) = tl srv.
+Proof. rewrite acked_server. reflexivity. Qed.
+Lemma bind_st_loop_sign l srv ctxs fl : sign (acked fl (pop_server (bind_st l srv ctxs))) = negb (Z.land fl 4 =? 0).
+Proof. rewrite acked_sign. reflexivity. Qed.
+
+(* 1. tokens out *)
+Theorem tokens_out l ls srv ctxs r s : bind_run true (l :: ls) srv ctxs = (r, s) ->
+  exists alters n,
+    trace s = SBind 4 (Some (leg_token l)) ctxs :: alters /\ (n <= length ls)%nat /\
+    Forall is_alter alters /\
+    map alter_token alters = map leg_token (firstn n ls) /\
+    Forall (fun t => t <> []) (map alter_token alters) /\
+    (alters = [] \/
+     exists rs fl tk rest acc, srv = RBindAck rs fl tk :: rest /\ accepted_contexts ctxs rs 0 = Ok acc /\
+       Forall (fun p => sent_ctxs p = acc) alters).
+Proof.
+  intros H. apply bind_run_BindRun in H.
+  destruct H as [Es|rp rest Es Ex|rs fl tk rest e Es Ea|rs fl tk rest acc ru s Es Ea HR].
+  1-3: exists [], 0%nat; cbn [firstn map]; repeat split; auto; lia.
+  apply Run_out in HR as (alters & n & processed & extra & Htr & Hn & Hal & Htok & Hne & Hcx & _).
+  rewrite bind_st_loop_trace in Htr. exists alters, n. repeat split; auto.
+  right. exists rs, fl, tk, rest, acc. auto.
+Qed.
+
+(* 2. tokens in *)
+Definition fed_all (consumed : list reply) : list (option bytes) :=
+  None :: map (fun a => Some (or_empty (reply_token a))) consumed.
+
+Theorem tokens_in l ls srv ctxs r s : bind_run true (l :: ls) srv ctxs = (r, s) ->
+  exists consumed, srv = consumed ++ server s /\
+    steps s = firstn (length (steps s)) (fed_all consumed) /\
+    (length (steps s) <= S (length consumed))%nat /\
+    (length (steps s) = length (trace s) \/ length (steps s) = S (length (trace s))) /\
+    (length (steps s) = S (length (trace s)) <->
+       (2 <= length (steps s))%nat /\
+       exists lg, nth_error (l :: ls) (length (steps s) - 1) = Some lg /\ leg_token lg = []) /\
+    (length consumed = length (trace s) \/
+     (S (length consumed) = length (trace s) /\ r = Raise EOFError /\ server s = [])).
+Proof.
+  intros H. apply bind_run_BindRun in H.
+  destruct H as [Es|rp rest Es Ex|rs fl tk rest e Es Ea|rs fl tk rest acc ru s Es Ea HR].
+  - exists []. subst srv. cbn. repeat split; auto; try lia; try (intros (? & _); lia).
+  - exists [rp]. subst srv. cbn. repeat split; auto; try lia; try (intros (? & _); lia).
+  - exists [RBindAck rs fl tk]. subst srv. cbn. repeat split; auto; try lia; try (intros (? & _); lia).
+  - apply Run_in in HR as (consumed & m & d & Hsrv & Hst & Htr & Hml & Hmc & Hmd & Hiff & Hcd & _).
+    rewrite bind_st_loop_server in Hsrv. rewrite bind_st_loop_steps in Hst. rewrite bind_st_loop_trace in Htr.
+    subst srv. cbn [tl length] in *.
+    assert (Hfed : fed_all (RBindAck rs fl tk :: consumed) = None :: fed tk consumed).
+    { unfold fed_all, fed. cbn [map reply_token]. rewrite map_map. reflexivity. }
+    assert (Hlen : length (steps s) = S m).
+    { rewrite Hst. cbn [app length]. rewrite firstn_length_le; [reflexivity|].
+      unfold fed. cbn [map length]. rewrite !map_length. lia. }
+    exists (RBindAck rs fl tk :: consumed). rewrite Hlen, Htr, Hfed. cbn [length firstn Nat.sub].
+    split; [rewrite Hsrv; reflexivity|]. split; [exact Hst|]. split; [lia|]. split; [lia|].
+    split.
+    + rewrite Nat.sub_0_r. split.
+      * intros E. assert (E' : m = S d) by lia. apply Hiff in E' as (H1 & lg & Hl & Hl'). split; [lia|].
+        exists lg. destruct m as [|m']; [lia|]. cbn [Nat.sub nth_error] in *. rewrite Nat.sub_0_r in Hl. auto.
+      * intros (H2 & lg & Hl & Hl'). destruct m as [|m']; [lia|]. cbn [nth_error] in Hl.
+        assert (E : S m' = S d); [|lia]. apply Hiff. split; [lia|]. exists lg. cbn [Nat.sub]. rewrite Nat.sub_0_r. auto.
+    + destruct Hcd as [E|(E & E1 & E2)]; [left; lia|right]. subst ru. auto.
+Qed.
+
+(* 3. stops *)
+Theorem stops l ls srv ctxs r s : bind_run true (l :: ls) srv ctxs = (r, s) ->
+  (length (steps s) <= length (l :: ls))%nat /\
+  (forall i lg, (S i < length (steps s))%nat -> nth_error (l :: ls) i = Some lg -> leg_complete lg = false) /\
+  (forall i lg, nth_error (l :: ls) i = Some lg -> leg_complete lg = true -> (length (steps s) <= S i)%nat) /\
+  (forall i lg, (1 <= i)%nat -> nth_error (l :: ls) i = Some lg -> leg_token lg = [] -> (length (trace s) <= i)%nat).
+Proof.
+  intros H. apply bind_run_BindRun in H.
+  assert (G : (length (steps s) <= length (l :: ls))%nat /\
+    (forall i lg, (S i < length (steps s))%nat -> nth_error (l :: ls) i = Some lg -> leg_complete lg = false) /\
+    (forall i lg, (1 <= i)%nat -> nth_error (l :: ls) i = Some lg -> leg_token lg = [] -> (length (trace s) <= i)%nat)).
+  { destruct H as [Es|rp rest Es Ex|rs fl tk rest e Es Ea|rs fl tk rest acc ru s Es Ea HR].
+    1-3: cbn; repeat split; intros; lia.
+    apply Run_in in HR as (consumed & m & d & Hsrv & Hst & Htr & Hml & Hmc & Hmd & Hiff & Hcd & Hbad & Hinc & Hc & Hemp).
+    rewrite bind_st_loop_steps in Hst. rewrite bind_st_loop_trace in Htr. cbn [length] in *.
+    assert (Hlen : length (steps s) = S m).
+    { rewrite Hst. cbn [app length]. rewrite firstn_length_le; [reflexivity|].
+      unfold fed. cbn [map length]. rewrite !map_length. lia. }
+    rewrite Hlen, Htr. split; [lia|]. split.
+    - intros [|i] lg Hi Hl; cbn [nth_error] in Hl.
+      + inversion Hl; subst. apply Hc. lia.
+      + apply (Hinc i); [lia|assumption].
+    - intros [|i] lg Hi Hl Hl'; [lia|]. cbn [nth_error] in Hl. specialize (Hemp _ _ Hl Hl'). lia. }
+  destruct G as (G1 & G2 & G3). split; [assumption|]. split; [assumption|]. split; [|assumption].
+  intros i lg Hl Hc. destruct (Nat.le_gt_cases (length (steps s)) (S i)) as [|Hgt]; [assumption|].
+  rewrite (G2 i lg Hgt Hl) in Hc. discriminate.
+Qed.
+
+(* 4. header signing *)
+Theorem header_sign l ls srv ctxs r s : bind_run true (l :: ls) srv ctxs = (r, s) ->
+  exists processed extra,
+    srv = processed ++ extra ++ server s /\
+    (extra = [] \/ exists rp e, extra = [rp] /\ r = Raise e) /\
+    (forall k a, nth_error processed k = Some a -> expected a (expect_at k) = true) /\
+    (length processed <= length (trace s) <= S (length processed))%nat /\
+    ((exists v, r = Ok v) -> length processed = length (trace s)) /\
+    sign s = forallb has_flag processed /\
+    (exists tk, nth_error (trace s) 0 = Some (SBind 4 tk ctxs)) /\
+    (forall j p, nth_error (trace s) j = Some p ->
+       sent_flags p = if forallb has_flag (firstn j processed) then 4 else 0).
+Proof.
+  intros H. apply bind_run_BindRun in H.
+  destruct H as [Es|rp rest Es Ex|rs fl tk rest e Es Ea|rs fl tk rest acc ru s Es Ea HR].
+  - exists [], []. subst srv. cbn. repeat split; eauto; try (intros; nth_nil); try (intros [? ?]; discriminate); try (intros; nth_one; reflexivity).
+  - exists [], [rp]. subst srv. cbn. repeat split; eauto; try (intros; nth_nil); try (intros [? ?]; discriminate); try (intros; nth_one; reflexivity).
+  - exists [], [RBindAck rs fl tk]. subst srv. cbn. repeat split; eauto; try (intros; nth_nil); try (intros [? ?]; discriminate); try (intros; nth_one; reflexivity).
+  - apply Run_out in HR as (alters & n & processed & extra & Htr & Hn & Hal & Htok & Hne & Hcx & Hsrv & Hex & Hpr & Hlen & Hok & Hsg & Hfl).
+    rewrite bind_st_loop_trace in Htr. rewrite bind_st_loop_server in Hsrv. rewrite bind_st_loop_sign in Hsg, Hfl.
+    subst srv. cbn [tl] in Hsrv.
+    exists (RBindAck rs fl tk :: processed), extra. rewrite Htr. cbn [app length forallb has_flag nth_error].
+    split; [rewrite Hsrv; reflexivity|].
+    split. { destruct Hex as [->|(rp & e & -> & ->)]; [left; reflexivity|right; eauto]. }
+    split. { intros [|k] a Hk; cbn [nth_error] in Hk.
+             - inversion Hk; subst. reflexivity.
+             - cbn [expect_at]. rewrite Forall_forall in Hpr. apply Hpr. eapply nth_error_In; eassumption. }
+    split; [lia|].
+    split. { intros [v Hv]. f_equal. apply Hok. destruct ru as [[]|]; [eauto|discriminate]. }
+    split; [exact Hsg|]. split; [eauto|].
+    intros [|j] p Hj; cbn [nth_error firstn forallb] in *.
+    + inversion Hj; subst. reflexivity.
+    + rewrite (Hfl _ _ Hj). reflexivity.
+Qed.
+
+(* 5. fail closed *)
+Theorem fail_closed l ls srv ctxs r s consumed :
+  bind_run true (l :: ls) srv ctxs = (r, s) -> srv = consumed ++ server s ->
+  (length consumed <= length (trace s))%nat /\
+  (forall k rp, nth_error consumed k = Some rp -> expected rp (expect_at k) = false ->
+     r = Raise ValueError /\ length (trace s) = S k /\ length consumed = S k) /\
+  ((length consumed < length (trace s))%nat ->
+     r = Raise EOFError /\ server s = [] /\ length (trace s) = S (length consumed)).
+Proof.
+  intros H Hc. apply bind_run_BindRun in H.
+  destruct H as [Es|rp rest Es Ex|rs fl tk rest e Es Ea|rs fl tk rest acc ru s Es Ea HR].
+  - subst srv. cbn in Hc. destruct consumed; [|discriminate]. cbn. repeat split; auto; try nth_nil.
+  - cbn [server pop_server bind_st] in Hc. subst srv. cbn [tl] in Hc.
+    change (rp :: rest) with ([rp] ++ rest) in Hc. apply app_inv_tail in Hc. subst consumed. cbn.
+    repeat split; auto; try lia; nth_one; reflexivity.
+  - cbn [server pop_server bind_st] in Hc. subst srv. cbn [tl] in Hc.
+    change (RBindAck rs fl tk :: rest) with ([RBindAck rs fl tk] ++ rest) in Hc. apply app_inv_tail in Hc. subst consumed. cbn.
+    repeat split; auto; try lia; nth_one; try reflexivity; discriminate.
+  - apply Run_in in HR as (consumed' & m & d & Hsrv & Hst & Htr & Hml & Hmc & Hmd & Hiff & Hcd & Hbad & _).
+    rewrite bind_st_loop_server in Hsrv. rewrite bind_st_loop_trace in Htr. subst srv. cbn [tl length] in *.
+    rewrite Hsrv in Hc. change (RBindAck rs fl tk :: consumed' ++ server s) with ((RBindAck rs fl tk :: consumed') ++ server s) in Hc.
+    apply app_inv_tail in Hc. subst consumed. rewrite Htr. cbn [length].
+    split; [lia|]. split.
+    + intros [|k] rp Hk Hx; cbn [nth_error expect_at] in *.
+      * inversion Hk; subst. discriminate.
+      * destruct (Hbad _ _ Hk Hx) as (-> & E2 & E3). auto with arith.
+    + intros Hlt. destruct Hcd as [E|(E & -> & E2)]; [lia|]. auto with arith.
+Qed.
+
+(* 6. anonymous bind *)
+Theorem anonymous legs srv ctxs r s : bind_run false legs srv ctxs = (r, s) ->
+  trace s = [SBind 0 None ctxs] /\ steps s = [] /\ sign s = false /\
+  match srv with
+  | [] => r = Raise EOFError /\ server s = []
+  | RBindAck rs _ _ :: rest => r = Ok rs /\ server s = rest
+  | _ :: rest => r = Raise ValueError /\ server s = rest
+  end.
+Proof.
+  unfold bind_run. cbn [negb]. unfold send_pdu. cbn [init_st snoc_trace server trace steps sign pop_server app tl].
+  change c_PFC_NONE with 0.
+  destruct srv as [|[rs fl tk|rs fl tk| | |] rest]; intros H; inversion H; subst; cbn; auto.
+Qed.
+
+(* the result of a successful bind is the bind_ack's result vector; errors are of four kinds only *)
+Theorem result_is_bind_ack l ls srv ctxs r s : bind_run true (l :: ls) srv ctxs = (r, s) ->
+  forall v, r = Ok v -> exists fl tk rest, srv = RBindAck v fl tk :: rest.
+Proof.
+  intros H v Hv. apply bind_run_BindRun in H.
+  destruct H as [Es|rp rest Es Ex|rs fl tk rest e Es Ea|rs fl tk rest acc ru s Es Ea HR]; try discriminate.
+  destruct ru; [|discriminate]. inversion Hv; subst. eauto.
+Qed.
+
+(* ---- the only ways a bind can fail ---- *)
+Lemma index_err {A} (l : list A) i e : index l i = Raise e -> e = IndexError.
+Proof.
+  unfold index. destruct ((0 <=? (if i <? 0 then len l + i else i)) && ((if i <? 0 then len l + i else i) <? len l)).
+  - destruct (nth_error l (Z.to_nat (if i <? 0 then len l + i else i))); congruence.
+  - congruence.
+Qed.
+
+Lemma accepted_contexts_err ctxs : forall results idx e, accepted_contexts ctxs results idx = Raise e -> e = IndexError.
+Proof.
+  induction ctxs as [|c cs IH]; intros results idx e H; cbn [accepted_contexts] in H; [discriminate|].
+  destruct (index results idx) as [x|e1] eqn:Ei; cbn [bind] in H.
+  - destruct (accepted_contexts cs results (idx + 1)) as [rest|e2] eqn:Er; cbn [bind] in H; [discriminate|].
+    inversion H; subst. eapply IH; eassumption.
+  - inversion H; subst. eapply index_err; eassumption.
+Qed.
+
+Definition reply_results (r : reply) : list Z :=
+  match r with RBindAck rs _ _ | RAlterResp rs _ _ => rs | _ => [] end.
+
+Lemma Run_err fctx legs c tk s r s' : Run fctx legs c tk s r s' -> forall e, r = Raise e ->
+  exists consumed, server s = consumed ++ server s' /\
+    ((e = EOFError /\ server s' = []) \/
+     (e = ValueError /\ exists c0 rp, consumed = c0 ++ [rp] /\ expected rp EAlterResp = false) \/
+     (e = IndexError /\ exists c0 a, consumed = c0 ++ [a] /\ expected a EAlterResp = true /\
+        accepted_contexts fctx (reply_results a) 0 = Raise IndexError) \/
+     (e = KeyError /\ c = false /\ Forall (fun lg => leg_complete lg = false /\ leg_token lg <> []) legs)).
+Proof.
+  induction 1 as [legs tk s|tk s|l ls tk s Ht|l ls tk s Ht Es|l ls tk s rp rest Ht Es Ex|l ls tk s rs fl tk' rest e0 Ht Es Ea
+                 |l ls tk s rs fl tk' rest acc r s' Ht Es Ea HR IH]; intros e He; try discriminate.
+  - inversion He; subst. exists []. split; [reflexivity|]. right. right. right. auto.
+  - inversion He; subst. exists []. autorewrite with hs. split; [reflexivity|]. left. auto.
+  - inversion He; subst. exists [rp]. autorewrite with hs. rewrite Es. split; [reflexivity|]. right. left.
+    split; [reflexivity|]. exists [], rp. auto.
+  - inversion He; subst. pose proof (accepted_contexts_err _ _ _ _ Ea) as ->.
+    exists [RAlterResp rs fl tk']. autorewrite with hs. rewrite Es. split; [reflexivity|]. right. right. left.
+    split; [reflexivity|]. exists [], (RAlterResp rs fl tk'). auto.
+  - destruct (IH e He) as (consumed & Hsrv & Hcase). autorewrite with hs in Hsrv. rewrite Es in Hsrv. cbn [tl] in Hsrv.
+    exists (RAlterResp rs fl tk' :: consumed). split; [rewrite Es, Hsrv; reflexivity|].
+    destruct Hcase as [H1|[(H1 & c0 & rp & -> & H2)|[(H1 & c0 & a & -> & H2 & H3)|(H1 & H2 & H3)]]].
+    + left. assumption.
+    + right. left. split; [assumption|]. exists (RAlterResp rs fl tk' :: c0), rp. auto.
+    + right. right. left. split; [assumption|]. exists (RAlterResp rs fl tk' :: c0), a. auto.
+    + right. right. right. split; [assumption|]. split; [reflexivity|]. constructor; auto.
+Qed.
+
+Theorem error_causes l ls srv ctxs e s : bind_run true (l :: ls) srv ctxs = (Raise e, s) ->
+  exists consumed, srv = consumed ++ server s /\
+    ((e = EOFError /\ server s = []) \/
+     (e = ValueError /\ exists c0 rp, consumed = c0 ++ [rp] /\ expected rp (expect_at (length c0)) = false) \/
+     (e = IndexError /\ exists c0 a cx, consumed = c0 ++ [a] /\ expected a (expect_at (length c0)) = true /\
+        accepted_contexts cx (reply_results a) 0 = Raise IndexError) \/
+     (e = KeyError /\ Forall (fun lg => leg_complete lg = false) (l :: ls) /\ Forall (fun lg => leg_token lg <> []) ls)).
+Proof.
+  intros H. apply bind_run_BindRun in H. remember (Raise e) as r eqn:Hr.
+  destruct H as [Es|rp rest Es Ex|rs fl tk rest e0 Es Ea|rs fl tk rest acc ru s Es Ea HR].
+  - inversion Hr; subst. exists []. split; [reflexivity|]. left. auto.
+  - inversion Hr; subst. exists [rp]. split; [reflexivity|]. right. left. split; [reflexivity|]. exists [], rp. auto.
+  - inversion Hr; subst. pose proof (accepted_contexts_err _ _ _ _ Ea) as ->.
+    exists [RBindAck rs fl tk]. split; [reflexivity|]. right. right. left. split; [reflexivity|].
+    exists [], (RBindAck rs fl tk), ctxs. auto.
+  - destruct ru as [u|e1]; [discriminate|]. inversion Hr; subst e1.
+    destruct (Run_err _ _ _ _ _ _ _ HR e eq_refl) as (consumed & Hsrv & Hcase).
+    rewrite bind_st_loop_server in Hsrv. subst srv. cbn [tl] in Hsrv.
+    exists (RBindAck rs fl tk :: consumed). split; [rewrite Hsrv; reflexivity|].
+    destruct Hcase as [H1|[(H1 & c0 & rp & -> & H2)|[(H1 & c0 & a & -> & H2 & H3)|(H1 & H2 & H3)]]].
+    + left. assumption.
+    + right. left. split; [assumption|]. exists (RBindAck rs fl tk :: c0), rp. auto.
+    + right. right. left. split; [assumption|]. exists (RBindAck rs fl tk :: c0), a, acc. auto.
+    + right. right. right. split; [assumption|]. split.
+      * constructor; [assumption|]. eapply Forall_impl; [|exact H3]. intros ? [? ?]; assumption.
+      * eapply Forall_impl; [|exact H3]. intros ? [? ?]; assumption.
+Qed.
+
+(* ---- _process_bind_ack selects exactly the contexts whose result is ACCEPTANCE (= 0), in order ---- *)
+Lemma index_nat {A} (l : list A) k x : index l (Z.of_nat k) = Ok x -> nth_error l k = Some x.
+Proof.
+  unfold index. assert (E : (Z.of_nat k <? 0) = false) by lia. rewrite E.
+  destruct ((0 <=? Z.of_nat k) && (Z.of_nat k <? len l)); [|discriminate].
+  rewrite Nat2Z.id. destruct (nth_error l k); congruence.
+Qed.
+
+Lemma skipn_nth_error {A} : forall (l : list A) k x, nth_error l k = Some x -> skipn k l = x :: skipn (S k) l.
+Proof.
+  induction l as [|a l IH]; intros [|k] x H; cbn [nth_error] in H; try discriminate.
+  - inversion H; subst. reflexivity.
+  - cbn [skipn]. rewrite (IH _ _ H). reflexivity.
+Qed.
+
+Definition accepted_of (ctxs results : list Z) : list Z :=
+  map fst (filter (fun cr => snd cr =? 0) (combine ctxs results)).
+
+Lemma accepted_contexts_skipn : forall ctxs results k acc,
+  accepted_contexts ctxs results (Z.of_nat k) = Ok acc ->
+  (length ctxs <= length (skipn k results))%nat /\ acc = accepted_of ctxs (skipn k results).
+Proof.
+  destruct guards_meaning as (_ & _ & _ & Ha & _).
+  induction ctxs as [|c cs IH]; intros results k acc H; cbn [accepted_contexts] in H.
+  - apply Ok_inj in H. subst. cbn. split; [lia|reflexivity].
+  - destruct (index results (Z.of_nat k)) as [x|] eqn:Ei; [|discriminate]. cbn [bind] in H.
+    replace (Z.of_nat k + 1) with (Z.of_nat (S k)) in H by lia.
+    destruct (accepted_contexts cs results (Z.of_nat (S k))) as [rest|] eqn:Er; [|discriminate]. cbn [bind] in H.
+    apply Ok_inj in H. apply index_nat in Ei. rewrite (skipn_nth_error _ _ _ Ei).
+    destruct (IH _ _ _ Er) as (Hl & ->). split; [cbn [length]; lia|].
+    unfold accepted_of. cbn [combine filter snd]. subst acc.
+    destruct (k_ack_accepted x c_ACCEPTANCE) eqn:Ek.
+    + apply Ha in Ek. subst x. reflexivity.
+    + destruct (x =? 0) eqn:Ex; [|reflexivity]. assert (x = 0) by lia. apply Ha in H. congruence.
+Qed.
+
+Theorem accepted_contexts_exact ctxs results acc :
+  accepted_contexts ctxs results 0 = Ok acc ->
+  (length ctxs <= length results)%nat /\ acc = accepted_of ctxs results.
+Proof. intros H. apply (accepted_contexts_skipn ctxs results 0%nat acc H). Qed.
